@@ -28,7 +28,7 @@ class C20(Prop):
   def strategy(self, tier):
     from hypothesis import strategies as st
     return st.tuples(spytrace.history(tier), st.sampled_from(["queued", "queued", "queued", "ao"]),
-                     st.sampled_from([None, None, "recall", "subscribe"]), st.integers(0, 3)).map(
+                     st.sampled_from([None, None, "recall", "subscribe", "publish"]), st.integers(0, 3)).map(
       lambda t: dict(t[0], host=t[1], pre=t[2], restart=(t[3] == 0)))
 
   def check(self, case, stats):
@@ -82,6 +82,12 @@ class C20(Prop):
           signals.append("VSUB")
           run.real.chart.subscribe(Event(signal=signals["VSUB"]))
           classes.append("subscribe_before_start")
+        elif case.get("pre") == "publish" and host == "ao":
+          # ... or publish before it is started (the request waits in the object's own queue)
+          from miros.event import Event, signals
+          signals.append("VSUB")
+          run.real.chart.publish(Event(signal=signals["VSUB"]))
+          classes.append("publish_before_start")
         run.start()
         self.compare(run, "start_at")
         for idx, op in enumerate(case["ops"]):
